@@ -196,6 +196,41 @@ def run_closure_task(task, acc):
                 check_closure_case(case, acc, cfg)
 
 
+def check_cfgseq_case(case, acc):
+    """ONE caller-owned configuration object, edited in place between decodes of the same bytes: an element's entry
+    is removed, restored, retyped.  Every decode must still end in a dict or the library error."""
+    import copy
+    data, struct, cfg0, cfgname = corpus.encoded(case['msg'], case['enc'], case['hex'])
+    cfg = copy.deepcopy(cfg0)
+    bit = str(case['bit'])
+    saved = copy.deepcopy(cfg[bit])
+    acc.case(('cfgseq', case['msg'], case['enc'], case['hex'], case['bit'], tuple(case['steps'])), nontrivial=True,
+             outcome='cfgseq')
+    for i, step in enumerate(case['steps']):
+        if step == 'del':
+            cfg.pop(bit, None)
+        elif step == 'restore':
+            cfg[bit] = copy.deepcopy(saved)
+        elif step == 'llvar':
+            cfg[bit] = dict(saved, field_type='LLVAR', field_length=0)
+        elif step == 'fixed5':
+            cfg[bit] = dict(saved, field_type='FIXED', field_length=5)
+        elif step == 'int':
+            cfg[bit] = dict(saved, field_python_type='int')
+        out = classify_loads(data, cfg, case['enc'], case['hex'])
+        acc.outcome('cfgseq:' + out.split('@')[0])
+        if out.startswith('BAD') or (step == 'del' and out != 'library_error') or (step == 'restore' and out != 'dict'):
+            acc.viol('c07.cfgseq.%s' % (out[4:] if out.startswith('BAD') else 'wrong_outcome'), case,
+                     'step %d (%s): %s' % (i + 1, step, out),
+                     'library error when the element has no configuration, dict when it is restored, never another '
+                     'exception', 'the configuration object is edited in place between decodes')
+            return
+
+
+CFG_STEPS = [['restore', 'del', 'restore', 'del'], ['restore', 'llvar', 'restore', 'fixed5', 'del', 'restore'],
+             ['del', 'restore', 'int', 'restore']]
+
+
 # ---- files --------------------------------------------------------------------------------------------
 
 def file_base(name, enc):
@@ -322,6 +357,8 @@ def replay_into(case, acc):
     k = case['kind']
     if k == 'msg':
         check_msg_case(case, acc)
+    elif k == 'cfgseq':
+        check_cfgseq_case(case, acc)
     elif k == 'closure':
         check_closure_case(case, acc)
     elif k == 'file':
@@ -359,6 +396,16 @@ def tasks(tier, seed):
             for part in range(of):
                 ts.append({'t': 'file', 'file': fname, 'enc': enc, 'part': part, 'of': of, 'tier': tier})
     ts.append({'t': 'cli'})
+    seqs = []
+    for name in names:
+        for enc, hx in (('latin_1', False), ('cp500', True)):
+            data, struct, cfg, _ = corpus.encoded(name, enc, hx)
+            bits = sorted({int(n[2:].split('.')[0]) for n, s_, e_ in struct if n.startswith('DE')})
+            for bit in bits:
+                for steps in CFG_STEPS:
+                    seqs.append({'kind': 'cfgseq', 'msg': name, 'enc': enc, 'hex': hx, 'bit': bit, 'steps': steps})
+    for ch in core.chunks(seqs, 16):
+        ts.append({'t': 'cases', 'cases': ch})
     return ts
 
 
@@ -370,6 +417,11 @@ def run_task(task):
         run_closure_task(task, acc)
     elif task['t'] == 'file':
         run_file_task(task, acc)
+    elif task['t'] == 'cases':
+        for i, case in enumerate(task['cases']):
+            if i == 0:
+                acc.sample(case)
+            replay_into(case, acc)
     else:
         for case in CLI_CASES:
             check_cli_case(case, acc)
@@ -386,7 +438,9 @@ def describe(tier, seed):
                 'bitmap bytes) x a 10-value alphabet. Closure: MTI + single-bit bitmap + every string of length <= %d '
                 'over 8 symbols for every configured bit (PKG, custom, generated). Files (VBS / 1014 / IPM with 1..4 '
                 'records): truncations, every value of every length-prefix and trailer byte, content substitutions, '
-                'insert/delete, pairs of length bytes. Oracle: loads returns a dict or raises the library error; '
+                'insert/delete, pairs of length bytes. Configuration sequences: one caller-owned configuration object '
+                'whose entry for a flagged element is removed / restored / retyped in place between decodes of the same '
+                'bytes. Oracle: loads returns a dict or raises the library error; '
                 'readers yield then stop or raise MciIpmDataError; a %.0f s CPU-time watchdog never fires; '
                 'mci_ipm_to_csv.cli_run on real files returns (diagnostic) instead of raising. Distinct by (base, '
                 'mutation); non-trivial = mutated.' % (len(corpus.messages()), 'every position' if tier == 'thorough'
